@@ -337,8 +337,11 @@ class JsonSchemaGenerator:
                 # will count options.ignore_required in
                 required.append(name)
             elif self.output:
-                if not field.no_default:
-                    # if field has default, the value is required in the output data
+                opts = options or self.options
+                deferred = field.defer_default or opts.defer_default or opts.no_default
+                if not field.no_default and not deferred:
+                    # if field has default (that is filled in, not deferred or disabled),
+                    # the value is required in the output data
                     required.append(name)
 
         data.update(properties=properties)
